@@ -42,6 +42,10 @@ func errClass(err error) string {
 		return "EHistWithSummaryOpts"
 	case strings.HasPrefix(m, "cannot use summary observer and histogram options"):
 		return "ESummWithHistOpts"
+	case strings.Contains(m, "histogram buckets must be in increasing order"):
+		return "EBadBuckets"
+	case strings.Contains(m, "summary quantile"), strings.Contains(m, "summary max_age"):
+		return "EBadSummary"
 	case strings.HasPrefix(m, "invalid metric type"), strings.HasPrefix(m, "invalid match type"),
 		strings.HasPrefix(m, "invalid observer type"), strings.HasPrefix(m, "invalid action type"):
 		return "EEnum"
